@@ -14,7 +14,8 @@ CLAIM = {
             "(Enc/MapSort.v, alg/sort.go) + reference encoder (Enc/StdEnc.v, encoding/json as documented). Theorems: see Props/C03.v "
             "(radix quicksort sorts every key list for every depth budget; branch targets of compiled programs are in range; "
             "agreement of the compiled program with the reference encoder on the proved fragment: scalars, strings, pointers, slices, arrays, "
-            "[]byte and structs without field options incl. the OP_recurse path, with the reference encoder proved total there). Tie, every run: (a) the model's "
+            "[]byte and structs (fields without option, with omitempty on bool/int/string/pointer/slice, with `,string` on scalars) incl. the OP_recurse path, "
+            "for every option word (the reference encoder takes the NoNullSliceOrMap bit) and with the reference proved total there). Tie, every run: (a) the model's "
             "program equals the real compiler's program instruction by instruction for generated types (both pv), (b) model execution "
             "equals sonic.ConfigStd.Marshal bytes/error class in a JIT process and in an interpreter process, (c) the reference encoder "
             "equals encoding/json.Marshal byte for byte. Property oracle (independent of the model): encoding/json on the same value.",
